@@ -215,3 +215,97 @@ pub fn layout_key(s: &Snapshot) -> u64 {
     h ^= s.witnesses.len() as u64;
     h.wrapping_mul(0x100000001b3)
 }
+
+/// Pre-processed compiled description for deciding many instances quickly.
+pub struct Model {
+    pub n: usize,
+    pub size: usize,
+    /// rows with at least one non-zero selector
+    active: Vec<usize>,
+    selectors: Vec<[Fe; 11]>,
+    /// witness index of every (row, wire) of the compiled description
+    wiring: Vec<[usize; 4]>,
+    n_witnesses: usize,
+}
+
+impl Model {
+    pub fn new(compiled: &Snapshot) -> Self {
+        let n = compiled.gates.len();
+        let size = n.next_power_of_two().max(1);
+        let mut active = vec![];
+        for (i, g) in compiled.gates.iter().enumerate() {
+            if g.q.iter().any(|q| *q != zero()) {
+                active.push(i);
+            }
+        }
+        Model {
+            n,
+            size,
+            active,
+            selectors: compiled.gates.iter().map(|g| g.q).collect(),
+            wiring: compiled.gates.iter().map(|g| g.w).collect(),
+            n_witnesses: compiled.witnesses.len(),
+        }
+    }
+
+    /// Same verdict as `decide(compiled, inst)`.
+    pub fn decide(&self, inst: &Snapshot) -> Verdict {
+        if inst.gates.len() != self.n {
+            return Verdict::SizeMismatch { compiled: self.n, instance: inst.gates.len() };
+        }
+        let val = |row: usize, k: usize| -> Fe {
+            if row < self.n {
+                inst.witnesses[inst.gates[row].w[k]]
+            } else {
+                zero()
+            }
+        };
+        let mut gate_fails = Vec::new();
+        let mut pi_rows: Vec<(usize, Fe)> = Vec::new();
+        for (row, v) in &inst.public_inputs {
+            if *row < self.size {
+                pi_rows.push((*row, *v));
+            }
+        }
+        let check_row = |i: usize, q: &[Fe; 11], pi: Fe, out: &mut Vec<(usize, usize)>| {
+            let j = (i + 1) % self.size;
+            let cur = [val(i, 0), val(i, 1), val(i, 2), val(i, 3)];
+            let next = [val(j, 0), val(j, 1), val(j, 2), val(j, 3)];
+            let comps = row_components(q, pi, &cur, &next);
+            for (k, v) in comps.iter().enumerate() {
+                if *v != zero() {
+                    out.push((i, k));
+                }
+            }
+        };
+        let zq = [zero(); 11];
+        for &i in &self.active {
+            let pi = pi_rows.iter().find(|(r, _)| *r == i).map(|(_, v)| *v).unwrap_or(zero());
+            check_row(i, &self.selectors[i], pi, &mut gate_fails);
+        }
+        // PI rows without any selector still carry the PI term
+        for (r, v) in &pi_rows {
+            let is_active = *r < self.n && self.selectors[*r].iter().any(|q| *q != zero());
+            if !is_active {
+                check_row(*r, if *r < self.n { &self.selectors[*r] } else { &zq }, *v, &mut gate_fails);
+            }
+        }
+        gate_fails.sort();
+        let mut first: Vec<Option<Fe>> = vec![None; self.n_witnesses];
+        let mut copy_fails = Vec::new();
+        for (i, w) in self.wiring.iter().enumerate() {
+            for k in 0..4 {
+                let v = val(i, k);
+                match &first[w[k]] {
+                    None => first[w[k]] = Some(v),
+                    Some(f) => {
+                        if *f != v {
+                            copy_fails.push((i, k));
+                        }
+                    }
+                }
+            }
+        }
+        Verdict::Rows { gate_fails, copy_fails }
+    }
+}
